@@ -366,4 +366,632 @@ theorem no_block_header_step (o : Opts) (hstore : o.store = true) (hmfd : o.maxF
     simp only [bind_eq, pure_eq, P.bind, P.pure, hn, hty, h, report_accept, hstore, if_true, getCif, setCif, hany,
       Bool.false_eq_true, if_false, ← hr0, hbody]
 
+
+/-! ### loops with dropped header names and / or a short last packet -/
+
+/-- the values of a row that belong to retained columns (`sl` = the slots of the columns the values `vs` stand in) -/
+def keepFrom : List (Option Str) → List V → List V
+  | some _ :: sl, v :: vs => v :: keepFrom sl vs
+  | none :: sl, _ :: vs => keepFrom sl vs
+  | _, _ => []
+
+theorem findHeaderName_noneG (o : Opts) (slots : List (Option Str)) (n : Str) (hvalid : isValidName true n = true)
+    (hd : ∀ m ∈ slots.filterMap id, o.norm m ≠ o.norm n) : findHeaderName o slots n = none := by
+  unfold findHeaderName
+  simp [hvalid]
+  intro x hx
+  cases x with
+  | none => simp
+  | some m =>
+    have hne := hd m (by simp [List.mem_filterMap]; exact hx)
+    simp [hne]
+
+/-- header names behind arbitrary slots (some of which may have been dropped) -/
+theorem header_structureG (o : Opts) {path : Path} {put : Container → Cif} {code : Str} (hv : View o path put code)
+    (fs : List Container) (ls : List Loop) : ∀ (ns : List Str) (slots : List (Option Str)) (rest : List TokSpec) (s : PS) (fuel : Nat)
+      (pol : Policy) (w : W),
+      w.cif = put (.mk code fs ls) → (∀ n ∈ ns, wfName n = true) → (∀ n ∈ ns, o.norm n ∉ normNames o ls) →
+      ((slots.filterMap id ++ ns).map o.norm).Nodup → ns.length + 1 ≤ fuel →
+      (∃ ty tx ts, rest = (ty, tx) :: ts ∧ ty ≠ .name) →
+      Feeds o s (ns.map (fun n => (TokType.name, n)) ++ rest) →
+      ∃ s', headerLoop o (some path) fuel s slots pol w = .ok (slots ++ ns.map some, s') w ∧ Feeds o s' rest
+  | [], slots, rest, s, fuel, pol, w, _, _, _, _, hfuel, hrest, hF => by
+    obtain ⟨f, rfl⟩ : ∃ f, fuel = f + 1 := ⟨fuel - 1, by omega⟩
+    obtain ⟨ty, tx, ts, rfl, hty⟩ := hrest
+    simp only [List.map_nil, List.nil_append] at hF
+    obtain ⟨t, s1, ht1, ht2, hn, ht, hr⟩ := hF.inv
+    refine ⟨s1, ?_, by rw [← ht1, ← ht2]; exact Feeds.pending ht hr⟩
+    rw [headerLoop]
+    simp only [bind_eq, pure_eq, P.bind, P.pure, hn, ht1, hty, if_false, List.append_nil, List.map_nil]
+  | n :: ns, slots, rest, s, fuel, pol, w, hcif, hwf, hfresh, hnd, hfuel, hrest, hF => by
+    obtain ⟨f, rfl⟩ : ∃ f, fuel = f + 1 := ⟨fuel - 1, by omega⟩
+    simp only [List.map_cons, List.cons_append] at hF
+    obtain ⟨t, s1, ht1, ht2, hn, _, hr⟩ := hF.inv
+    have hw := hwf n (by simp)
+    simp only [wfName, Bool.and_eq_true] at hw
+    have hdist : ∀ m ∈ slots.filterMap id, o.norm m ≠ o.norm n := by
+      intro m hm heq
+      have h1 : ((slots.filterMap id ++ n :: ns).map o.norm) = (slots.filterMap id).map o.norm ++ o.norm n :: ns.map o.norm := by simp
+      rw [h1] at hnd
+      exact (List.nodup_append.mp hnd).2.2 (o.norm m) (List.mem_map.mpr ⟨m, hm, rfl⟩) (o.norm n) (by simp) heq
+    have hnd' : (((slots ++ [some n]).filterMap id ++ ns).map o.norm).Nodup := by
+      simpa [List.filterMap_append] using hnd
+    obtain ⟨s2, h1, h2⟩ := header_structureG o hv fs ls ns (slots ++ [some n]) rest (consume s1) f pol w hcif
+      (fun m hm => hwf m (by simp [hm])) (fun m hm => hfresh m (by simp [hm])) hnd' (by simp at hfuel; omega) hrest hr
+    refine ⟨s2, ?_, h2⟩
+    rw [headerLoop]
+    simp only [bind_eq, pure_eq, P.bind, P.pure, hn, ht1, ht2, if_true, cstr_noNul hw.2,
+      itemExists_false o hv n fs ls pol w hcif hw.1 (hfresh n (by simp)), Bool.false_eq_true, if_false,
+      findHeaderName_noneG o slots n hw.1 hdist, h1]
+    simp
+
+/-- a duplicate name in a loop header (it repeats — in any spelling — an item of the container or an earlier, retained header
+    name): CIF_DUP_ITEMNAME, the slot is dropped -/
+theorem dup_header_name_step (o : Opts) {path : Path} {put : Container → Cif} {code : Str} (hv : View o path put code)
+    (fs : List Container) (ls : List Loop) (n : Str) (slots : List (Option Str)) (rest : List TokSpec) (s : PS) (fuel : Nat) (w : W)
+    (hcif : w.cif = put (.mk code fs ls)) (hname : wfName n = true)
+    (hdup : o.norm n ∈ normNames o ls ∨ ∃ m ∈ slots.filterMap id, isValidName true m = true ∧ o.norm m = o.norm n)
+    (hF : Feeds o s ((.name, n) :: rest)) :
+    ∃ s1 r, headerLoop o (some path) (fuel + 1) s slots acceptAll w
+        = headerLoop o (some path) fuel s1 (slots ++ [none]) acceptAll { w with log := r :: w.log }
+      ∧ r.code = CIF_DUP_ITEMNAME ∧ Feeds o s1 rest := by
+  simp only [wfName, Bool.and_eq_true] at hname
+  obtain ⟨t, s1, ht1, ht2, hn, _, hr⟩ := hF.inv
+  refine ⟨consume s1, ⟨CIF_DUP_ITEMNAME, s1.scan.line, s1.scan.col - t.text.length⟩, ?_, rfl, hr⟩
+  rw [headerLoop]
+  by_cases hin : o.norm n ∈ normNames o ls
+  · simp only [bind_eq, pure_eq, P.bind, P.pure, hn, ht1, ht2, if_true, cstr_noNul hname.2,
+      itemExists_true o hv n fs ls acceptAll w hcif hname.1 hin, report_accept]
+  · rcases hdup with h | ⟨m, hm, hmv, hmn⟩
+    · exact absurd h hin
+    · have hfind : findHeaderName o slots n = some false := by
+        unfold findHeaderName
+        have hmem : some m ∈ slots := by simpa [List.mem_filterMap] using hm
+        simp only [hname.1, Bool.not_true, Bool.false_eq_true, if_false]
+        split
+        · rfl
+        · rename_i h
+          exact absurd (List.any_eq_true.mpr ⟨some m, hmem, by simp [hmv, hmn]⟩) h
+      simp only [bind_eq, pure_eq, P.bind, P.pure, hn, ht1, ht2, if_true, cstr_noNul hname.2,
+        itemExists_false o hv n fs ls acceptAll w hcif hname.1 hin, Bool.false_eq_true, if_false, hfind, report_accept]
+
+
+theorem drop_getD {α} (l : List α) (i : Nat) (x d : α) (t : List α) (h : l.drop i = x :: t) : l.getD i d = x := by
+  have : l[i]? = some x := by
+    rw [← List.head?_drop, h]; rfl
+  simp [List.getD, this]
+
+theorem drop_succ {α} (l : List α) (i : Nat) (x : α) (t : List α) (h : l.drop i = x :: t) : l.drop (i + 1) = t := by
+  have : l.drop (i + 1) = (l.drop i).drop 1 := by rw [List.drop_drop]
+  rw [this, h]; rfl
+
+/-- the body of a loop whose header may have dropped names (`slots`), ending in whatever `hend` describes (the plain end of
+    the body, or a short last packet) -/
+theorem packetsG (o : Opts) {path : Path} {put : Container → Cif} {code : Str} (hv : View o path put code)
+    (fs : List Container) (ls0 : List Loop) (slots : List (Option Str)) (names : List Str) (pol : Policy)
+    (tailP : List (List V)) (Good : List Report → Prop) (rest rest' : List TokSpec) (K : Nat) (hK : 1 ≤ K)
+    (hend : ∀ (D : List (List V)) (w1 : W) (s1 : PS) (g : Nat), w1.cif = put (.mk code fs (ls0 ++ [mkLoop names D])) → K ≤ g →
+        Feeds o s1 rest →
+        ∃ s' lg, packetsLoop o (some path) slots g s1 { idx := 0, some := true, cur := [] } pol w1
+            = .ok s' { log := lg ++ w1.log, cif := put (.mk code fs (ls0 ++ [mkLoop names (D ++ tailP)])) } ∧ Good lg ∧ Feeds o s' rest') :
+    ∀ (ps : List (List Val)) (vs : List Val) (sl : List (Option Str)) (cur : List V) (done : List (List V)) (b : Bool) (s : PS)
+      (fuel : Nat) (w : W),
+      w.cif = put (.mk code fs (ls0 ++ [mkLoop names done])) → vs ≠ [] →
+      vs.length = sl.length → slots.drop (slots.length - sl.length) = sl → sl.length ≤ slots.length →
+      (∀ p ∈ ps, p.length = slots.length) → slots ≠ [] →
+      wfVals o vs = true → (∀ p ∈ ps, wfVals o p = true) → szVals vs + szPackets ps + K ≤ fuel →
+      Feeds o s (valsToks vs ++ (packetsToks ps ++ rest)) →
+      ∃ s' lg, packetsLoop o (some path) slots fuel s { idx := slots.length - sl.length, some := b, cur := cur } pol w
+          = .ok s' { log := lg ++ w.log, cif := put (.mk code fs (ls0 ++ [mkLoop names
+              (done ++ [cur ++ keepFrom sl (denoteVals o.dia o.normKey vs)]
+                ++ ps.map (fun p => keepFrom slots (denoteVals o.dia o.normKey p)) ++ tailP)])) }
+        ∧ Good lg ∧ Feeds o s' rest'
+  | ps, [], _, _, _, _, _, _, _, _, hne, _, _, _, _, _, _, _, _, _ => absurd rfl hne
+  | ps, _ :: _, [], _, _, _, _, _, _, _, _, hl, _, _, _, _, _, _, _, _ => by simp at hl
+  | ps, v :: vs, x :: sl, cur, done, b, s, fuel, w, hcif, _, hlen, hdrop, hle, hps, hns, hwv, hwps, hfuel, hF => by
+    simp only [szVals] at hfuel
+    have hp := szVal_pos v
+    obtain ⟨f, rfl⟩ : ∃ f, fuel = f + 1 := ⟨fuel - 1, by omega⟩
+    simp only [wfVals, Bool.and_eq_true] at hwv
+    obtain ⟨ty, tx, ts, hvt, hstart, hkey⟩ := valToks_head v
+    simp only [valsToks, List.append_assoc] at hF
+    have hF' := hF
+    rw [hvt, List.cons_append] at hF'
+    obtain ⟨t, s1, hty, htx, hn, ht, hr⟩ := hF'.inv
+    have hpend : Feeds o s1 (valToks v ++ (valsToks vs ++ (packetsToks ps ++ rest))) := by
+      rw [hvt, List.cons_append, ← hty, ← htx]; exact Feeds.pending ht hr
+    obtain ⟨s2, h1, h2⟩ := value_structure o v _ s1 f pol w hwv.1 (by omega) hpend
+    have hslot := drop_getD slots _ x none sl hdrop
+    have hnext := drop_succ slots _ x sl hdrop
+    simp only [List.length_cons] at hle hlen hdrop hslot hnext ⊢
+    have hn0 : 0 < slots.length := by omega
+    rw [packetsLoop]
+    simp only [bind_eq, pure_eq, P.bind, P.pure, hn, hty, hkey, hstart, Bool.false_or, if_true, Bool.false_eq_true, if_false,
+      h1, hslot]
+    cases sl with
+    | cons x2 sl2 =>
+      cases vs with
+      | nil => simp at hlen
+      | cons v2 vs2 =>
+        simp only [List.length_cons] at hle hlen hnext
+        have hidx : slots.length - (sl2.length + 1 + 1) + 1 = slots.length - (sl2.length + 1) := by omega
+        have hmod : (slots.length - (sl2.length + 1 + 1) + 1) % slots.length = slots.length - (sl2.length + 1) := by
+          rw [hidx]; exact Nat.mod_eq_of_lt (by omega)
+        have hne0 : ¬ (slots.length - (sl2.length + 1) = 0) := by omega
+        simp only [List.length_cons, hmod, hne0, if_false]
+        rw [hidx] at hnext
+        obtain ⟨s3, lg, h3, hg, h4⟩ := packetsG o hv fs ls0 slots names pol tailP Good rest rest' K hK hend ps (v2 :: vs2) (x2 :: sl2)
+          (if x.isSome then cur ++ [denoteVal o.dia o.normKey v] else cur) done b s2 f w hcif (by simp) (by simpa using hlen)
+          (by simpa using hnext) (by simp; omega) hps hns hwv.2 hwps (by omega) h2
+        simp only [List.length_cons] at h3
+        refine ⟨s3, lg, ?_, hg, h4⟩
+        rw [h3]
+        cases x <;> simp [keepFrom, denoteVals, List.append_assoc]
+    | nil =>
+      cases vs with
+      | cons v2 vs2 => simp at hlen
+      | nil =>
+        have hidx : slots.length - (0 + 1) + 1 = slots.length := by omega
+        have hmod : (slots.length - (0 + 1) + 1) % slots.length = 0 := by rw [hidx]; exact Nat.mod_self _
+        simp only [List.length_nil, hmod, if_true]
+        rw [P.bind_ok (addPacket_mk o hv fs ls0 names done _ pol w hcif)]
+        simp only [valsToks, List.nil_append] at h2
+        cases ps with
+        | nil =>
+          simp only [packetsToks, List.nil_append] at h2
+          obtain ⟨s3, lg, h3, hg, h4⟩ := hend (done ++ [if x.isSome then cur ++ [denoteVal o.dia o.normKey v] else cur])
+            { w with cif := put (.mk code fs (ls0 ++ [mkLoop names (done ++ [if x.isSome then cur ++ [denoteVal o.dia o.normKey v] else cur])])) }
+            s2 f rfl (by simp only [szPackets] at hfuel; omega) h2
+          refine ⟨s3, lg, ?_, hg, h4⟩
+          rw [h3]
+          cases x <;> simp [keepFrom, denoteVals, List.append_assoc]
+        | cons p ps2 =>
+          have hpl : p.length = slots.length := hps p (by simp)
+          simp only [packetsToks, List.append_assoc] at h2
+          simp only [szPackets] at hfuel
+          obtain ⟨s3, lg, h3, hg, h4⟩ := packetsG o hv fs ls0 slots names pol tailP Good rest rest' K hK hend ps2 p slots []
+            (done ++ [if x.isSome then cur ++ [denoteVal o.dia o.normKey v] else cur]) true s2 f
+            { w with cif := put (.mk code fs (ls0 ++ [mkLoop names (done ++ [if x.isSome then cur ++ [denoteVal o.dia o.normKey v] else cur])])) }
+            rfl (by intro h; rw [h] at hpl; simp at hpl; exact hns (List.length_eq_zero_iff.mp hpl.symm)) hpl (by simp) (Nat.le_refl _) (fun q hq => hps q (by simp [hq])) hns (hwps p (by simp)) (fun q hq => hwps q (by simp [hq]))
+            (by omega) h2
+          simp only [Nat.sub_self] at h3
+          refine ⟨s3, lg, ?_, hg, h4⟩
+          rw [h3]
+          cases x <;> simp [keepFrom, denoteVals, List.append_assoc]
+termination_by ps vs => (ps.length, vs.length)
+
+
+/-- unknown values for the retained columns among `sl` -/
+def unkFill (sl : List (Option Str)) : List V := (sl.filter Option.isSome).map fun _ => V.unk
+
+/-- the plain end of a loop body: a token that is neither a value nor a closing delimiter -/
+theorem packets_end_plain (o : Opts) {path : Path} {put : Container → Cif} {code : Str} (fs : List Container) (ls0 : List Loop)
+    (slots : List (Option Str)) (names : List Str) (pol : Policy) (ty : TokType) (tx : Str) (ts : List TokSpec)
+    (hterm : isTerminator ty = true) :
+    ∀ (D : List (List V)) (w1 : W) (s1 : PS) (g : Nat), w1.cif = put (.mk code fs (ls0 ++ [mkLoop names D])) → 1 ≤ g →
+      Feeds o s1 ((ty, tx) :: ts) →
+      ∃ s' lg, packetsLoop o (some path) slots g s1 { idx := 0, some := true, cur := [] } pol w1
+          = .ok s' { log := lg ++ w1.log, cif := put (.mk code fs (ls0 ++ [mkLoop names (D ++ [])])) } ∧ lg = [] ∧
+        Feeds o s' ((ty, tx) :: ts) := by
+  intro D w1 s1 g hcif hg hF
+  obtain ⟨f, rfl⟩ : ∃ f, g = f + 1 := ⟨g - 1, by omega⟩
+  obtain ⟨t, s2, hty, htx, hn, ht, hr⟩ := hF.inv
+  simp only [isTerminator, Bool.not_eq_true', Bool.or_eq_false_iff, beq_eq_false_iff_ne, ne_eq] at hterm
+  refine ⟨s2, [], ?_, rfl, by rw [← hty, ← htx]; exact Feeds.pending ht hr⟩
+  rw [packetsLoop]
+  simp [bind_eq, pure_eq, P.bind, P.pure, hn, hty, hterm.1.1.1, hterm.1.1.2, hterm.1.2, hterm.2, ← hcif]
+
+/-- a short last packet: its values, then the end of the body — CIF_PARTIAL_PACKET, the packet is filled out with unknown values -/
+theorem partial_row (o : Opts) {path : Path} {put : Container → Cif} {code : Str} (hv : View o path put code)
+    (fs : List Container) (ls0 : List Loop) (slots : List (Option Str)) (names : List Str) (ty : TokType) (tx : Str) (ts : List TokSpec)
+    (hterm : isTerminator ty = true) (D : List (List V)) :
+    ∀ (pv : List Val) (sl : List (Option Str)) (cur : List V) (b : Bool) (s : PS) (fuel : Nat) (w : W),
+      w.cif = put (.mk code fs (ls0 ++ [mkLoop names D])) → pv.length < sl.length →
+      slots.drop (slots.length - sl.length) = sl → sl.length ≤ slots.length → (pv = [] → sl.length < slots.length) →
+      wfVals o pv = true → szVals pv + 1 ≤ fuel → Feeds o s (valsToks pv ++ (ty, tx) :: ts) →
+      ∃ s' r, packetsLoop o (some path) slots fuel s { idx := slots.length - sl.length, some := b, cur := cur } acceptAll w
+          = .ok s' { log := [r] ++ w.log, cif := put (.mk code fs (ls0 ++ [mkLoop names
+              (D ++ [cur ++ keepFrom sl (denoteVals o.dia o.normKey pv) ++ unkFill (sl.drop pv.length)])])) }
+        ∧ r.code = CIF_PARTIAL_PACKET ∧ Feeds o s' ((ty, tx) :: ts)
+  | [], sl, cur, b, s, fuel, w, hcif, _, hdrop, hle, hidx, _, hfuel, hF => by
+    obtain ⟨f, rfl⟩ : ∃ f, fuel = f + 1 := ⟨fuel - 1, by omega⟩
+    simp only [valsToks, List.nil_append] at hF
+    obtain ⟨t, s1, hty, htx, hn, ht, hr⟩ := hF.inv
+    simp only [isTerminator, Bool.not_eq_true', Bool.or_eq_false_iff, beq_eq_false_iff_ne, ne_eq] at hterm
+    have hi := hidx rfl
+    have hne : ¬ (slots.length - sl.length = 0) := by omega
+    refine ⟨s1, ⟨CIF_PARTIAL_PACKET, s1.scan.line, s1.scan.col - t.text.length⟩, ?_, rfl,
+      by rw [← hty, ← htx]; exact Feeds.pending ht hr⟩
+    rw [packetsLoop]
+    simp only [bind_eq, pure_eq, P.bind, P.pure, hn, hty, hterm.1.1.1, hterm.1.1.2, Bool.or_self, Bool.false_eq_true, if_false,
+      hterm.1.2, hterm.2, beq_iff_eq, hne, ne_eq, not_false_eq_true, if_true, report_accept, hdrop, decide_eq_true_eq, or_self]
+    rw [addPacket_mk o hv fs ls0 names D _ acceptAll
+      ⟨⟨CIF_PARTIAL_PACKET, s1.scan.line, s1.scan.col - t.text.length⟩ :: w.log, w.cif⟩ hcif]
+    simp [keepFrom, denoteVals, unkFill]
+  | v :: pv, [], _, _, _, _, _, _, hl, _, _, _, _, _, _ => by simp at hl
+  | v :: pv, x :: sl, cur, b, s, fuel, w, hcif, hlen, hdrop, hle, _, hwv, hfuel, hF => by
+    simp only [szVals] at hfuel
+    have hp := szVal_pos v
+    obtain ⟨f, rfl⟩ : ∃ f, fuel = f + 1 := ⟨fuel - 1, by omega⟩
+    simp only [wfVals, Bool.and_eq_true] at hwv
+    obtain ⟨vty, vtx, vts, hvt, hstart, hkey⟩ := valToks_head v
+    simp only [valsToks, List.append_assoc] at hF
+    have hF' := hF
+    rw [hvt, List.cons_append] at hF'
+    obtain ⟨t, s1, hty, htx, hn, ht, hr⟩ := hF'.inv
+    have hpend : Feeds o s1 (valToks v ++ (valsToks pv ++ (ty, tx) :: ts)) := by
+      rw [hvt, List.cons_append, ← hty, ← htx]; exact Feeds.pending ht hr
+    obtain ⟨s2, h1, h2⟩ := value_structure o v _ s1 f acceptAll w hwv.1 (by omega) hpend
+    have hslot := drop_getD slots _ x none sl hdrop
+    have hnext := drop_succ slots _ x sl hdrop
+    simp only [List.length_cons] at hle hlen hdrop hslot hnext ⊢
+    have hidx : slots.length - (sl.length + 1) + 1 = slots.length - sl.length := by omega
+    have hsl : 0 < sl.length := by omega
+    have hmod : (slots.length - (sl.length + 1) + 1) % slots.length = slots.length - sl.length := by
+      rw [hidx]; exact Nat.mod_eq_of_lt (by omega)
+    have hne0 : ¬ (slots.length - sl.length = 0) := by omega
+    rw [hidx] at hnext
+    obtain ⟨s3, r, h3, hr3, h4⟩ := partial_row o hv fs ls0 slots names ty tx ts hterm D pv sl
+      (if x.isSome then cur ++ [denoteVal o.dia o.normKey v] else cur) b s2 f w hcif (by omega) hnext (by omega) (fun _ => by omega)
+      hwv.2 (by omega) h2
+    refine ⟨s3, r, ?_, hr3, h4⟩
+    rw [packetsLoop]
+    simp only [bind_eq, pure_eq, P.bind, P.pure, hn, hty, hkey, hstart, Bool.false_or, if_true, Bool.false_eq_true, if_false,
+      h1, hslot, hmod, hne0, h3]
+    cases x <;> simp [keepFrom, denoteVals, List.append_assoc]
+
+
+theorem keepFrom_map_some : ∀ (ns : List Str) (vs : List V), vs.length ≤ ns.length → keepFrom (ns.map some) vs = vs
+  | _, [], _ => by cases ‹List Str› <;> rfl
+  | [], _ :: _, h => by simp at h
+  | n :: ns, v :: vs, h => by
+    simp only [List.map_cons, keepFrom]
+    rw [keepFrom_map_some ns vs (by simpa using h)]
+
+theorem unkFill_map_some (ns : List Str) (k : Nat) : unkFill ((ns.map some).drop k) = List.replicate (ns.length - k) V.unk := by
+  unfold unkFill
+  rw [← List.map_drop]
+  have : ((ns.drop k).map some).filter Option.isSome = (ns.drop k).map some := by
+    rw [List.filter_eq_self]; intro a ha; obtain ⟨x, _, rfl⟩ := List.mem_map.mp ha; rfl
+  rw [this, List.map_map]
+  have : ∀ l : List Str, l.map ((fun _ => V.unk) ∘ some) = List.replicate l.length V.unk := by
+    intro l; induction l with
+    | nil => rfl
+    | cons a r ih => simp [List.replicate_succ, ih]
+  rw [this, List.length_drop]
+
+theorem denoteVals_append (dia : Dialect) (nk : Str → Str) : ∀ (a b : List Val),
+    denoteVals dia nk (a ++ b) = denoteVals dia nk a ++ denoteVals dia nk b
+  | [], b => rfl
+  | v :: a, b => by simp only [List.cons_append, denoteVals]; rw [denoteVals_append dia nk a b]
+
+theorem denoteVals_replicate_unk (dia : Dialect) (nk : Str → Str) : ∀ k : Nat,
+    denoteVals dia nk (List.replicate k Val.unk) = List.replicate k V.unk
+  | 0 => rfl
+  | k + 1 => by simp only [List.replicate_succ, denoteVals, denoteVal]; rw [denoteVals_replicate_unk dia nk k]
+
+theorem denoteVals_length (dia : Dialect) (nk : Str → Str) : ∀ l : List Val, (denoteVals dia nk l).length = l.length
+  | [] => rfl
+  | v :: l => by simp only [denoteVals, List.length_cons]; rw [denoteVals_length dia nk l]
+
+/-- parse_loop behind its header: the loop is created and the body follows -/
+theorem parseLoop_create (o : Opts) {path : Path} {put : Container → Cif} {code : Str} (hv : View o path put code)
+    (fs : List Container) (ls : List Loop) (slots : List (Option Str)) (s s2 : PS) (fuel : Nat) (pol : Policy) (w w' : W)
+    (hhead : headerLoop o (some path) fuel s [] pol w = .ok (slots, s2) w') (hcif : w'.cif = put (.mk code fs ls))
+    (hne : slots.filterMap id ≠ []) (hvalid : ∀ n ∈ slots.filterMap id, isValidName true n = true)
+    (hfresh : ∀ n ∈ slots.filterMap id, o.norm n ∉ normNames o ls) (hnd : ((slots.filterMap id).map o.norm).Nodup) :
+    parseLoop o fuel s (some path) pol w
+      = packetsLoop o (some path) slots fuel s2 { idx := 0, some := false, cur := [] } pol
+          { w' with cif := put (.mk code fs (ls ++ [mkLoop (slots.filterMap id) []])) } := by
+  have hv1 : (slots.filterMap id).any (fun n => !isValidName true n) = false := by
+    rw [List.any_eq_false]; intro n hn; simp [hvalid n hn]
+  have hclash : (slots.filterMap id).any (fun n => hasItem o.norm (.mk code fs ls) (o.norm n)) = false := by
+    rw [List.any_eq_false]; intro n hn; simp [hasItem_false o code fs ls _ (hfresh n hn)]
+  have hempty : slots.isEmpty = false := by
+    cases slots with
+    | nil => exact absurd rfl hne
+    | cons a r => rfl
+  have hnE : (slots.filterMap id).isEmpty = false := by
+    cases h : slots.filterMap id with
+    | nil => exact absurd h hne
+    | cons a r => rfl
+  unfold parseLoop
+  simp only [bind_eq, pure_eq, P.bind, P.pure, hhead, hempty, Bool.false_eq_true, if_false, hnE, hv1, getCif, setCif, hcif, hv.get,
+    hv.upd, hclash, hasDup_false _ hnd, Bool.or_false, Container.code, Container.frames, Container.loops, mkLoop]
+
+/-- **partial packet**: a loop (valid, new, distinct names) whose last packet `pv` is short: CIF_PARTIAL_PACKET, the packet is
+    filled out with unknown values; the complete packets `ps` before it are stored as they are -/
+theorem partial_packet_step (o : Opts) {path : Path} {put : Container → Cif} {code : Str} (hv : View o path put code)
+    (ns : List Str) (ps : List (List Val)) (pv : List Val) (ty : TokType) (tx : Str) (ts : List TokSpec) (s : PS) (fuel : Nat) (w : W)
+    (fs : List Container) (ls : List Loop) (isBlock : Bool) (hcif : w.cif = put (.mk code fs ls))
+    (hwf : ∀ n ∈ ns, wfName n = true) (hfresh : ∀ n ∈ ns, o.norm n ∉ normNames o ls) (hnd : (ns.map o.norm).Nodup)
+    (hlen : ∀ p ∈ ps, p.length = ns.length) (hwv : ∀ p ∈ ps, wfVals o p = true)
+    (hpv : pv ≠ []) (hpl : pv.length < ns.length) (hwpv : wfVals o pv = true)
+    (hfuel : ns.length + szPackets ps + szVals pv + 2 ≤ fuel) (hterm : isTerminator ty = true)
+    (hF : Feeds o s ((.loopKw, []) :: (ns.map (fun n => (TokType.name, n)) ++ (packetsToks ps ++ (valsToks pv ++ (ty, tx) :: ts))))) :
+    ∃ s' r, elemsLoop o (fuel + 1) s (some path) isBlock acceptAll w
+        = elemsLoop o fuel s' (some path) isBlock acceptAll
+            { log := r :: w.log, cif := put (.mk code fs (denoteItems o.dia o.normKey
+                [.loop ns (ps ++ [pv ++ List.replicate (ns.length - pv.length) Val.unk])] ls)) }
+      ∧ r.code = CIF_PARTIAL_PACKET ∧ Feeds o s' ((ty, tx) :: ts) := by
+  obtain ⟨t, s1, hty, _, hn, _, hr⟩ := hF.inv
+  have hns : ns ≠ [] := by intro h; rw [h] at hpl; simp at hpl
+  -- the token behind the header is the first token of a value
+  have hfirst : ∃ ty' tx' ts', packetsToks ps ++ (valsToks pv ++ (ty, tx) :: ts) = (ty', tx') :: ts' ∧ ty' ≠ .name := by
+    have hval : ∀ (v : Val) (tl : List TokSpec), ∃ ty' tx' ts', valToks v ++ tl = (ty', tx') :: ts' ∧ ty' ≠ .name := by
+      intro v tl
+      obtain ⟨a, b, c, h, hs, _⟩ := valToks_head v
+      exact ⟨a, b, c ++ tl, by simp [h], by intro e; rw [e] at hs; cases hs⟩
+    cases ps with
+    | nil =>
+      cases pv with
+      | nil => exact absurd rfl hpv
+      | cons v r => simpa [packetsToks, valsToks, List.append_assoc] using hval v _
+    | cons p r =>
+      have : p ≠ [] := by
+        intro h; have := hlen p (by simp); rw [h] at this; exact hns (List.length_eq_zero_iff.mp this.symm)
+      cases p with
+      | nil => exact absurd rfl this
+      | cons v r2 => simpa [packetsToks, valsToks, List.append_assoc] using hval v _
+  obtain ⟨s2, h1, h2⟩ := header_structure o hv fs ls ns [] _ (consume s1) fuel acceptAll w hcif hwf hfresh (by simpa using hnd)
+    (by omega) hfirst hr
+  simp only [List.nil_append, List.map_nil] at h1
+  have hfm : (ns.map some).filterMap id = ns := filterMap_map_some ns
+  have hcreate := parseLoop_create o hv fs ls (ns.map some) (consume s1) s2 fuel acceptAll w w h1 hcif (by rw [hfm]; exact hns)
+    (by rw [hfm]; intro n hn'; have := hwf n hn'; simp only [wfName, Bool.and_eq_true] at this; exact this.1)
+    (by rw [hfm]; exact hfresh) (by rw [hfm]; exact hnd)
+  rw [hfm] at hcreate
+  have hnl : (ns.map some).length = ns.length := by simp
+  -- the body
+  have hbody : ∃ s3 r, packetsLoop o (some path) (ns.map some) fuel s2 { idx := 0, some := false, cur := [] } acceptAll
+        { w with cif := put (.mk code fs (ls ++ [mkLoop ns []])) }
+      = .ok s3 { log := r :: w.log, cif := put (.mk code fs (ls ++ [mkLoop ns
+          (ps.map (denoteVals o.dia o.normKey) ++ [denoteVals o.dia o.normKey pv ++ List.replicate (ns.length - pv.length) V.unk])])) }
+      ∧ r.code = CIF_PARTIAL_PACKET ∧ Feeds o s3 ((ty, tx) :: ts) := by
+    cases ps with
+    | nil =>
+      simp only [packetsToks, List.nil_append] at h2
+      obtain ⟨s3, r, h3, hr3, h4⟩ := partial_row o hv fs ls (ns.map some) ns ty tx ts hterm [] pv (ns.map some) [] false s2 fuel
+        { w with cif := put (.mk code fs (ls ++ [mkLoop ns []])) } rfl (by simpa using hpl) (by simp) (Nat.le_refl _)
+        (fun h => absurd h hpv) hwpv (by omega) h2
+      refine ⟨s3, r, ?_, hr3, h4⟩
+      simp only [Nat.sub_self] at h3
+      rw [h3, keepFrom_map_some ns _ (by rw [denoteVals_length]; omega), unkFill_map_some]
+      simp
+    | cons p0 ps' =>
+      simp only [packetsToks, List.append_assoc] at h2
+      simp only [szPackets] at hfuel
+      obtain ⟨s3, lg, h3, ⟨r, hlg, hr3⟩, h4⟩ := packetsG o hv fs ls (ns.map some) ns acceptAll
+        [denoteVals o.dia o.normKey pv ++ List.replicate (ns.length - pv.length) V.unk]
+        (fun lg => ∃ r, lg = [r] ∧ r.code = CIF_PARTIAL_PACKET) (valsToks pv ++ (ty, tx) :: ts) ((ty, tx) :: ts) (szVals pv + 1) (by omega)
+        (by
+          intro D w1 s1' g hc hg hFe
+          obtain ⟨s4, r, h5, hr5, h6⟩ := partial_row o hv fs ls (ns.map some) ns ty tx ts hterm D pv (ns.map some) [] true s1' g w1 hc
+            (by simpa using hpl) (by simp) (Nat.le_refl _) (fun h => absurd h hpv) hwpv hg hFe
+          refine ⟨s4, [r], ?_, ⟨r, rfl, hr5⟩, h6⟩
+          simp only [Nat.sub_self] at h5
+          rw [h5, keepFrom_map_some ns _ (by rw [denoteVals_length]; omega), unkFill_map_some]
+          simp)
+        ps' p0 (ns.map some) [] [] false s2 fuel { w with cif := put (.mk code fs (ls ++ [mkLoop ns []])) } rfl
+        (by intro h; have := hlen p0 (by simp); rw [h] at this; exact hns (List.length_eq_zero_iff.mp this.symm))
+        (by simpa using hlen p0 (by simp)) (by simp) (Nat.le_refl _) (fun q hq => by simpa using hlen q (by simp [hq]))
+        (by intro h; exact hns (List.map_eq_nil_iff.mp h)) (hwv p0 (by simp)) (fun q hq => hwv q (by simp [hq])) (by omega) h2
+      subst hlg
+      refine ⟨s3, r, ?_, hr3, h4⟩
+      simp only [Nat.sub_self] at h3
+      rw [h3]
+      have hk : ∀ q ∈ p0 :: ps', keepFrom (ns.map some) (denoteVals o.dia o.normKey q) = denoteVals o.dia o.normKey q := by
+        intro q hq
+        apply keepFrom_map_some
+        rw [denoteVals_length, hlen q hq]; exact Nat.le_refl _
+      simp only [List.nil_append, List.map_cons, hk p0 (by simp), List.singleton_append, List.cons_append]
+      have hmap : List.map (fun p => keepFrom (ns.map some) (denoteVals o.dia o.normKey p)) ps' = List.map (denoteVals o.dia o.normKey) ps' := by
+        apply List.map_congr_left
+        intro q hq
+        exact hk q (by simp [hq])
+      rw [hmap]
+  obtain ⟨s3, r, h3, hr3, h4⟩ := hbody
+  refine ⟨s3, r, ?_, hr3, h4⟩
+  conv => lhs; rw [elemsLoop]
+  simp only [bind_eq, pure_eq, P.bind, P.pure, hn, hty, hcreate, h3]
+  simp [denoteItems, mkLoop, denoteVals_append, denoteVals_replicate_unk]
+
+
+theorem partial_packet_run (o : Opts) {path : Path} {put : Container → Cif} {code : Str} (hv : View o path put code)
+    (pre post : List Item) (ns : List Str) (ps : List (List Val)) (pv : List Val) (seen seen2 : List Str) (rest : List TokSpec) (s : PS)
+    (fuel : Nat) (w : W) (fs : List Container) (ls : List Loop) (isBlock : Bool) (hcif : w.cif = put (.mk code fs ls))
+    (hpre : wfItems o pre seen = true) (hseen : ∀ k ∈ normNames o ls, k ∈ seen)
+    (hwf : ∀ n ∈ ns, wfName n = true) (hfresh : ∀ n ∈ ns, o.norm n ∉ normNames o (denoteItems o.dia o.normKey pre ls))
+    (hnd : (ns.map o.norm).Nodup) (hlen : ∀ p ∈ ps, p.length = ns.length) (hwv : ∀ p ∈ ps, wfVals o p = true)
+    (hpv : pv ≠ []) (hpl : pv.length < ns.length) (hwpv : wfVals o pv = true)
+    (hpost : wfItems o post seen2 = true)
+    (hseen2 : ∀ k ∈ normNames o (denoteItems o.dia o.normKey
+        [.loop ns (ps ++ [pv ++ List.replicate (ns.length - pv.length) Val.unk])] (denoteItems o.dia o.normKey pre ls)), k ∈ seen2)
+    (hfuel : szItems pre + szItems post + (ns.length + szPackets ps + szVals pv + 2) + 1 ≤ fuel)
+    (hnext : ∃ ty tx ts, itemsToks post ++ rest = (ty, tx) :: ts ∧ isTerminator ty = true)
+    (hrest : lastIsLoop post = true → ∃ ty tx ts, rest = (ty, tx) :: ts ∧ isTerminator ty = true)
+    (hF : Feeds o s (itemsToks pre ++ (((.loopKw, []) :: (ns.map (fun n => (TokType.name, n)) ++ (packetsToks ps ++ valsToks pv)))
+      ++ (itemsToks post ++ rest)))) :
+    ∃ s' r, elemsLoop o (fuel + post.length + 1 + pre.length) s (some path) isBlock acceptAll w
+        = elemsLoop o fuel s' (some path) isBlock acceptAll
+            { log := r :: w.log, cif := put (.mk code fs (denoteItems o.dia o.normKey
+                (pre ++ [.loop ns (ps ++ [pv ++ List.replicate (ns.length - pv.length) Val.unk])] ++ post) ls)) }
+      ∧ r.code = CIF_PARTIAL_PACKET ∧ Feeds o s' rest := by
+  obtain ⟨ty, tx, ts, hnx, hterm⟩ := hnext
+  have := defect_run o hv pre post ((.loopKw, []) :: (ns.map (fun n => (TokType.name, n)) ++ (packetsToks ps ++ valsToks pv)))
+    (fun l => denoteItems o.dia o.normKey [.loop ns (ps ++ [pv ++ List.replicate (ns.length - pv.length) Val.unk])] l)
+    CIF_PARTIAL_PACKET (ns.length + szPackets ps + szVals pv + 2) seen seen2 rest s fuel w fs ls isBlock hcif hpre hseen hpost hseen2
+    (by
+      intro s1 w1 f hc hf hF1
+      rw [hnx] at hF1 ⊢
+      simp only [List.cons_append, List.append_assoc] at hF1
+      exact partial_packet_step o hv ns ps pv ty tx ts s1 f w1 fs _ isBlock hc hwf hfresh hnd hlen hwv hpv hpl hwpv hf hterm hF1)
+    hfuel (fun _ => ⟨_, _, _, rfl, rfl⟩) hrest hF
+  simpa [denoteItems_append, denoteItems] using this
+
+
+/-! ### a duplicate name in a loop header -/
+
+/-- header names, up to a point (equation form of `header_structureG`) -/
+theorem header_run (o : Opts) {path : Path} {put : Container → Cif} {code : Str} (hv : View o path put code)
+    (fs : List Container) (ls : List Loop) : ∀ (ns : List Str) (slots : List (Option Str)) (rest : List TokSpec) (s : PS) (fuel : Nat)
+      (pol : Policy) (w : W),
+      w.cif = put (.mk code fs ls) → (∀ n ∈ ns, wfName n = true) → (∀ n ∈ ns, o.norm n ∉ normNames o ls) →
+      ((slots.filterMap id ++ ns).map o.norm).Nodup → Feeds o s (ns.map (fun n => (TokType.name, n)) ++ rest) →
+      ∃ s', headerLoop o (some path) (fuel + ns.length) s slots pol w = headerLoop o (some path) fuel s' (slots ++ ns.map some) pol w
+        ∧ Feeds o s' rest
+  | [], slots, rest, s, fuel, pol, w, _, _, _, _, hF => ⟨s, by simp, by simpa using hF⟩
+  | n :: ns, slots, rest, s, fuel, pol, w, hcif, hwf, hfresh, hnd, hF => by
+    simp only [List.map_cons, List.cons_append] at hF
+    obtain ⟨t, s1, ht1, ht2, hn, _, hr⟩ := hF.inv
+    have hw := hwf n (by simp)
+    simp only [wfName, Bool.and_eq_true] at hw
+    have hdist : ∀ m ∈ slots.filterMap id, o.norm m ≠ o.norm n := by
+      intro m hm heq
+      have h1 : ((slots.filterMap id ++ n :: ns).map o.norm) = (slots.filterMap id).map o.norm ++ o.norm n :: ns.map o.norm := by simp
+      rw [h1] at hnd
+      exact (List.nodup_append.mp hnd).2.2 (o.norm m) (List.mem_map.mpr ⟨m, hm, rfl⟩) (o.norm n) (by simp) heq
+    have hnd' : (((slots ++ [some n]).filterMap id ++ ns).map o.norm).Nodup := by
+      simpa [List.filterMap_append] using hnd
+    obtain ⟨s2, h1, h2⟩ := header_run o hv fs ls ns (slots ++ [some n]) rest (consume s1) fuel pol w hcif
+      (fun m hm => hwf m (by simp [hm])) (fun m hm => hfresh m (by simp [hm])) hnd' hr
+    refine ⟨s2, ?_, h2⟩
+    have e : fuel + (n :: ns).length = (fuel + ns.length) + 1 := by simp; omega
+    rw [e, headerLoop]
+    simp only [bind_eq, pure_eq, P.bind, P.pure, hn, ht1, ht2, if_true, cstr_noNul hw.2,
+      itemExists_false o hv n fs ls pol w hcif hw.1 (hfresh n (by simp)), Bool.false_eq_true, if_false,
+      findHeaderName_noneG o slots n hw.1 hdist, h1]
+    simp
+
+theorem keepFrom_drop_col : ∀ (a b : List Str) (vs : List V), vs.length = a.length + 1 + b.length →
+    keepFrom (a.map some ++ none :: b.map some) vs = vs.eraseIdx a.length
+  | [], b, [], h => by simp at h; omega
+  | [], b, v :: vs, h => by
+    simp only [List.map_nil, List.nil_append, keepFrom, List.length_nil, List.eraseIdx_cons_zero]
+    exact keepFrom_map_some b vs (by simp at h; omega)
+  | x :: a, b, [], h => by simp at h; omega
+  | x :: a, b, v :: vs, h => by
+    simp only [List.map_cons, List.cons_append, keepFrom, List.length_cons, List.eraseIdx_cons_succ]
+    rw [keepFrom_drop_col a b vs (by simp at h; omega)]
+
+/-- **duplicate name in a loop header**: the header `ns₁ ++ [n'] ++ ns₂` where `n'` repeats (in any spelling) an item of the
+    container or one of `ns₁`: CIF_DUP_ITEMNAME, the loop is created without that name and every packet loses that column -/
+theorem dup_header_step (o : Opts) {path : Path} {put : Container → Cif} {code : Str} (hv : View o path put code)
+    (ns1 ns2 : List Str) (n' : Str) (p0 : List Val) (ps : List (List Val)) (ty : TokType) (tx : Str) (ts : List TokSpec) (s : PS)
+    (fuel : Nat) (w : W) (fs : List Container) (ls : List Loop) (isBlock : Bool) (hcif : w.cif = put (.mk code fs ls))
+    (hwf : ∀ n ∈ ns1 ++ ns2, wfName n = true) (hfresh : ∀ n ∈ ns1 ++ ns2, o.norm n ∉ normNames o ls)
+    (hnd : ((ns1 ++ ns2).map o.norm).Nodup) (hne : ns1 ++ ns2 ≠ [])
+    (hname : wfName n' = true)
+    (hdup : o.norm n' ∈ normNames o ls ∨ ∃ m ∈ ns1, o.norm m = o.norm n')
+    (hlen : ∀ p ∈ p0 :: ps, p.length = ns1.length + 1 + ns2.length) (hwv : ∀ p ∈ p0 :: ps, wfVals o p = true)
+    (hfuel : ns1.length + ns2.length + szPackets (p0 :: ps) + 3 ≤ fuel) (hterm : isTerminator ty = true)
+    (hF : Feeds o s ((.loopKw, []) :: (ns1.map (fun n => (TokType.name, n)) ++ ((.name, n') ::
+      (ns2.map (fun n => (TokType.name, n)) ++ (packetsToks (p0 :: ps) ++ (ty, tx) :: ts)))))) :
+    ∃ s' r, elemsLoop o (fuel + 1) s (some path) isBlock acceptAll w
+        = elemsLoop o fuel s' (some path) isBlock acceptAll
+            { log := r :: w.log, cif := put (.mk code fs (ls ++ [mkLoop (ns1 ++ ns2)
+                ((p0 :: ps).map (fun p => (denoteVals o.dia o.normKey p).eraseIdx ns1.length))])) }
+      ∧ r.code = CIF_DUP_ITEMNAME ∧ Feeds o s' ((ty, tx) :: ts) := by
+  obtain ⟨t, s1, hty, _, hn, _, hr⟩ := hF.inv
+  obtain ⟨g, hg⟩ : ∃ g, fuel = (g + 1) + ns1.length := ⟨fuel - ns1.length - 1, by omega⟩
+  -- the names in front of the duplicate
+  obtain ⟨s2, h1, h2⟩ := header_run o hv fs ls ns1 [] _ (consume s1) (g + 1) acceptAll w hcif
+    (fun n hn' => hwf n (by simp [hn'])) (fun n hn' => hfresh n (by simp [hn']))
+    (by simp only [List.filterMap_nil, List.nil_append]; exact (List.nodup_append.mp (by simpa using hnd)).1) hr
+  simp only [List.nil_append] at h1
+  -- the duplicate
+  obtain ⟨s3, r, h3, hr3, h4⟩ := dup_header_name_step o hv fs ls n' (ns1.map some) _ s2 g w hcif hname
+    (by
+      rcases hdup with h | ⟨m, hm, hmn⟩
+      · exact Or.inl h
+      · refine Or.inr ⟨m, by rw [filterMap_map_some]; exact hm, ?_, hmn⟩
+        have := hwf m (by simp [hm]); simp only [wfName, Bool.and_eq_true] at this; exact this.1) h2
+  -- the names behind it
+  have hfirst : ∃ ty' tx' ts', packetsToks (p0 :: ps) ++ (ty, tx) :: ts = (ty', tx') :: ts' ∧ ty' ≠ .name := by
+    have hp0 : p0 ≠ [] := by intro h; have := hlen p0 (by simp); rw [h] at this; simp at this; omega
+    cases p0 with
+    | nil => exact absurd rfl hp0
+    | cons v r2 =>
+      obtain ⟨a, b, c, h, hs, _⟩ := valToks_head v
+      exact ⟨a, b, c ++ (valsToks r2 ++ (packetsToks ps ++ (ty, tx) :: ts)), by simp [packetsToks, valsToks, h, List.append_assoc],
+        by intro e; rw [e] at hs; cases hs⟩
+  obtain ⟨s4, h5, h6⟩ := header_structureG o hv fs ls ns2 (ns1.map some ++ [none]) _ s3 g acceptAll { w with log := r :: w.log } hcif
+    (fun n hn' => hwf n (by simp [hn'])) (fun n hn' => hfresh n (by simp [hn']))
+    (by simpa [List.filterMap_append, filterMap_map_some] using hnd) (by omega) hfirst h4
+  have hslots : (ns1.map some ++ [none] ++ ns2.map some).filterMap id = ns1 ++ ns2 := by
+    simp [List.filterMap_append, filterMap_map_some]
+  have hhead : headerLoop o (some path) fuel (consume s1) [] acceptAll w
+      = .ok (ns1.map some ++ [none] ++ ns2.map some, s4) { w with log := r :: w.log } := by
+    rw [hg, h1, h3, h5]
+  have hcreate := parseLoop_create o hv fs ls (ns1.map some ++ [none] ++ ns2.map some) (consume s1) s4 fuel acceptAll w
+    { w with log := r :: w.log } hhead hcif (by rw [hslots]; exact hne)
+    (by rw [hslots]; intro n hn'; have := hwf n hn'; simp only [wfName, Bool.and_eq_true] at this; exact this.1)
+    (by rw [hslots]; exact hfresh) (by rw [hslots]; exact hnd)
+  rw [hslots] at hcreate
+  have hsl : (ns1.map some ++ [none] ++ ns2.map some).length = ns1.length + 1 + ns2.length := by simp; omega
+  simp only [packetsToks, List.append_assoc] at h6
+  obtain ⟨s5, lg, h7, hlg, h8⟩ := packetsG o hv fs ls (ns1.map some ++ [none] ++ ns2.map some) (ns1 ++ ns2) acceptAll [] (fun lg => lg = [])
+    ((ty, tx) :: ts) ((ty, tx) :: ts) 1 (Nat.le_refl _)
+    (packets_end_plain o fs ls _ _ acceptAll ty tx ts hterm)
+    ps p0 (ns1.map some ++ [none] ++ ns2.map some) [] [] false s4 fuel
+    { log := r :: w.log, cif := put (.mk code fs (ls ++ [mkLoop (ns1 ++ ns2) []])) } rfl
+    (by intro h; have := hlen p0 (by simp); rw [h] at this; simp at this; omega)
+    (by rw [hsl]; exact hlen p0 (by simp)) (by simp) (Nat.le_refl _) (fun q hq => by rw [hsl]; exact hlen q (by simp [hq]))
+    (by simp) (hwv p0 (by simp)) (fun q hq => hwv q (by simp [hq])) (by simp only [szPackets] at hfuel; omega) h6
+  subst hlg
+  refine ⟨s5, r, ?_, hr3, h8⟩
+  conv => lhs; rw [elemsLoop]
+  simp only [bind_eq, pure_eq, P.bind, P.pure, hn, hty, hcreate]
+  simp only [Nat.sub_self] at h7
+  rw [h7]
+  have hk : ∀ q ∈ p0 :: ps, keepFrom (ns1.map some ++ [none] ++ ns2.map some) (denoteVals o.dia o.normKey q)
+      = (denoteVals o.dia o.normKey q).eraseIdx ns1.length := by
+    intro q hq
+    have e : ns1.map some ++ [none] ++ ns2.map some = ns1.map some ++ none :: ns2.map some := by simp
+    rw [e]
+    exact keepFrom_drop_col ns1 ns2 _ (by rw [denoteVals_length]; exact hlen q hq)
+  have hmap : List.map (fun p => keepFrom (ns1.map some ++ [none] ++ ns2.map some) (denoteVals o.dia o.normKey p)) ps
+      = List.map (fun p => (denoteVals o.dia o.normKey p).eraseIdx ns1.length) ps := by
+    apply List.map_congr_left
+    intro q hq
+    exact hk q (by simp [hq])
+  simp only [List.nil_append, List.append_nil, List.map_cons, hk p0 (by simp), hmap, List.singleton_append]
+
+
+theorem dup_header_run (o : Opts) {path : Path} {put : Container → Cif} {code : Str} (hv : View o path put code)
+    (pre post : List Item) (ns1 ns2 : List Str) (n' : Str) (p0 : List Val) (ps : List (List Val)) (seen seen2 : List Str)
+    (rest : List TokSpec) (s : PS) (fuel : Nat) (w : W) (fs : List Container) (ls : List Loop) (isBlock : Bool)
+    (hcif : w.cif = put (.mk code fs ls)) (hpre : wfItems o pre seen = true) (hseen : ∀ k ∈ normNames o ls, k ∈ seen)
+    (hwf : ∀ n ∈ ns1 ++ ns2, wfName n = true)
+    (hfresh : ∀ n ∈ ns1 ++ ns2, o.norm n ∉ normNames o (denoteItems o.dia o.normKey pre ls))
+    (hnd : ((ns1 ++ ns2).map o.norm).Nodup) (hne : ns1 ++ ns2 ≠ []) (hname : wfName n' = true)
+    (hdup : o.norm n' ∈ normNames o (denoteItems o.dia o.normKey pre ls) ∨ ∃ m ∈ ns1, o.norm m = o.norm n')
+    (hlen : ∀ p ∈ p0 :: ps, p.length = ns1.length + 1 + ns2.length) (hwv : ∀ p ∈ p0 :: ps, wfVals o p = true)
+    (hpost : wfItems o post seen2 = true)
+    (hseen2 : ∀ k ∈ normNames o (denoteItems o.dia o.normKey pre ls ++ [mkLoop (ns1 ++ ns2)
+        ((p0 :: ps).map (fun p => (denoteVals o.dia o.normKey p).eraseIdx ns1.length))]), k ∈ seen2)
+    (hfuel : szItems pre + szItems post + (ns1.length + ns2.length + szPackets (p0 :: ps) + 3) + 1 ≤ fuel)
+    (hnext : ∃ ty tx ts, itemsToks post ++ rest = (ty, tx) :: ts ∧ isTerminator ty = true)
+    (hrest : lastIsLoop post = true → ∃ ty tx ts, rest = (ty, tx) :: ts ∧ isTerminator ty = true)
+    (hF : Feeds o s (itemsToks pre ++ (((.loopKw, []) :: (ns1.map (fun n => (TokType.name, n)) ++ ((.name, n') ::
+      (ns2.map (fun n => (TokType.name, n)) ++ packetsToks (p0 :: ps))))) ++ (itemsToks post ++ rest)))) :
+    ∃ s' r, elemsLoop o (fuel + post.length + 1 + pre.length) s (some path) isBlock acceptAll w
+        = elemsLoop o fuel s' (some path) isBlock acceptAll
+            { log := r :: w.log, cif := put (.mk code fs (denoteItems o.dia o.normKey post
+                (denoteItems o.dia o.normKey pre ls ++ [mkLoop (ns1 ++ ns2)
+                  ((p0 :: ps).map (fun p => (denoteVals o.dia o.normKey p).eraseIdx ns1.length))]))) }
+      ∧ r.code = CIF_DUP_ITEMNAME ∧ Feeds o s' rest := by
+  obtain ⟨ty, tx, ts, hnx, hterm⟩ := hnext
+  exact defect_run o hv pre post ((.loopKw, []) :: (ns1.map (fun n => (TokType.name, n)) ++ ((.name, n') ::
+      (ns2.map (fun n => (TokType.name, n)) ++ packetsToks (p0 :: ps)))))
+    (fun l => l ++ [mkLoop (ns1 ++ ns2) ((p0 :: ps).map (fun p => (denoteVals o.dia o.normKey p).eraseIdx ns1.length))])
+    CIF_DUP_ITEMNAME (ns1.length + ns2.length + szPackets (p0 :: ps) + 3) seen seen2 rest s fuel w fs ls isBlock hcif hpre hseen hpost
+    hseen2
+    (by
+      intro s1 w1 f hc hf hF1
+      rw [hnx] at hF1 ⊢
+      simp only [List.cons_append, List.append_assoc] at hF1
+      exact dup_header_step o hv ns1 ns2 n' p0 ps ty tx ts s1 f w1 fs _ isBlock hc hwf hfresh hnd hne hname hdup hlen hwv hf hterm hF1)
+    hfuel (fun _ => ⟨_, _, _, rfl, rfl⟩) hrest hF
+
 end CifModel.Model.Parser
